@@ -65,6 +65,14 @@ CHECKS = {
         design_ref="DESIGN.md §4 C07",
         note="A rewritten text that the dialect's own sqlfluff parser rejects is counted, not judged; a quoted token must still parse as an identifier; expression-named columns are compared modulo layout/case/quotes.",
     ),
+    "C08": dict(
+        technique="metamorphic monitor at AST level: injective renaming of statement-local names from an adversarial pool, add/drop alias, toggle AS; original vs transformed run through the real package",
+        category="exploration",
+        text="Generated statements are alpha-renamed (aliases, derived-table aliases, CTE names -> bare names of the statement's other tables incl. aliased-away ones, column names, mixed case, "
+             "non-reserved words), get aliases added/dropped and AS toggled; tables and end-to-end column pairs must be unchanged (local names in candidate sets mapped).",
+        design_ref="DESIGN.md §4 C08",
+        note="All generated local names are unique per statement so one global substitution renames consistently; a new name never equals a relation name visible in the same FROM scope; correlated references are not generated.",
+    ),
     "C09": dict(
         technique="differential monitor across 28 dialects and both analyzers on generated core statements, AST meaning as referee",
         category="exploration",
